@@ -111,6 +111,10 @@ class ImportConverter:
                             all_internal_modules,
                         ),
                     )
+                elif module.level > len(get_parent_modules(module_name)):
+                    # more leading dots than the importing module has parent packages in the scanned tree:
+                    # whatever is imported lies outside of the root package
+                    continue
                 elif module.module is None and alias.name == "*":
                     # "from . import *" imports the package itself, "*" is not the name of a module
                     new_import = AbsoluteImport(
